@@ -4,12 +4,10 @@ C14 - invalid input is rejected with an error and leaves the emitter state untou
 Theorems over Model/Emitter.lean (all states, all operations, all histories - no bound), the generated commit-discipline and
 table-bound facts of the current sources, and the link to the monitor of Spec/Emitter.lean.
 
-Full-strength statement that is *false* on the code as it is (open finding C14-K1, `bind` that overflows a pending displacement):
-
-    theorem failed_call_atomic (s : St) (op : Op) : (step s op).code ≠ 0 → (step s op).st.frame = s.frame
-
-The proved `failed_call_atomic_partial` carries the extra hypothesis `bindOverflows s op = false` (exactly the finding's class) and
-`failed_call_atomic_witness` proves the negation at the witness.
+`bind` is failure atomic since fix C14-13 (`bind_label` validates the pending fixups before it binds): `bind_failure_atomic` holds for
+every state.  What is left of finding C14-K1 is `embed_const_pool` whose label has a pending fixup the bind inside it cannot reach: the
+alignment padding is already appended.  The general theorems carry the hypothesis `bindOverflows s op = false` (exactly that class; it is
+`false` by definition for every call other than `embedConstPool`) and `const_pool_bind_overflow_witness` proves the negation at a witness.
 -/
 import AsmjitVerif.Lemmas.C14
 import AsmjitVerif.Spec.Emitter
@@ -28,8 +26,7 @@ theorem step_atomic (s : St) (op : Op) (h : bindOverflows s op = false) :
   | newLabel => exact (newLabel_atomic s).imp (fun h => h) (·.1)
   | newNamedLabel n t p => exact (newNamedLabel_atomic s n t p).imp (fun h => h) (·.1)
   | bind id =>
-    have h' : (bind s id).code ≠ Err.invalidDisplacement := by simpa [bindOverflows, step] using h
-    exact (bind_atomic s id h').imp (fun h => h) (·.1)
+    exact (bind_atomic s id).imp (fun h => h) (·.1)
   | align m a => exact (align_atomic s m a).imp (fun h => h) (·.1)
   | embed bs => exact Or.inl rfl
   | embedArray t d c r => exact (embedArray_atomic s t d c r).imp (fun h => h) (·.1)
@@ -45,21 +42,34 @@ theorem step_atomic (s : St) (op : Op) (h : bindOverflows s op = false) :
   | «section» i => exact (switchSection_atomic s i).imp (fun h => h) (·.1)
   | emit pre refs o => exact (emit_atomic s pre refs o).imp (fun h => h) (·.1)
 
-/-- **Failure atomicity** (partial: outside C14-K1).  A failed call appends no bytes, creates no labels, fixups or relocations,
+/-- **Failure atomicity** (partial: outside the const-pool residue of C14-K1).  A failed call appends no bytes, creates no labels, fixups or relocations,
 does not switch sections: apart from the (cleared) one-shot state the whole CodeHolder/emitter state is the one before the call. -/
 theorem failed_call_atomic_partial (s : St) (op : Op) (hfail : (step s op).code ≠ Err.ok) (hk : bindOverflows s op = false) :
     (step s op).st.frame = s.frame :=
   (step_atomic s op hk).resolve_left hfail
 
-/-- a state in which `bind 0` overflows: one pending 8-bit fixup (a short jump at offset 0) in a 130 byte section -/
+/-- a state in which label 0 cannot be bound: one pending 8-bit fixup (a short jump at offset 0) in a 130 byte section -/
 def witnessState : St :=
   { secs := [{ data := List.replicate 130 0#8 }], labels := [{}],
     pending := [{ label := 0, sec := 0, off := 1, rel := -1, fmt := simpleValue .signed 1, reloc := none }] }
 
-/-- **Witness of finding C14-K1**: the full-strength statement fails - `bind` returns `kInvalidDisplacement` and the label is bound. -/
-theorem failed_call_atomic_witness :
-    (step witnessState (.bind 0)).code = Err.invalidDisplacement ∧ (step witnessState (.bind 0)).st.frame ≠ witnessState.frame ∧
-    ((step witnessState (.bind 0)).st.labels.map (·.bound)) = [some (0, 130)] := by
+/-- **`bind` is failure atomic for every state and every label id** (fix C14-13): invalid id, already bound, or a pending displacement
+that does not fit - the label table, the fixups, the bytes and the current section are the ones before the call. -/
+theorem bind_failure_atomic (s : St) (id : Nat) (hfail : (Emitter.bind s id).code ≠ Err.ok) :
+    (Emitter.bind s id).st.frame = s.frame ∧ (Emitter.bind s id).reported = true :=
+  (bind_atomic s id).resolve_left hfail
+
+/-- ... and the unreachable-displacement case really is refused without a trace (it used to return the error with the label bound) -/
+theorem bind_overflow_refused_atomically :
+    (step witnessState (.bind 0)).code = Err.invalidDisplacement ∧ (step witnessState (.bind 0)).st = witnessState := by
+  decide +kernel
+
+/-- **Witness of what is left of finding C14-K1**: `embed_const_pool` with that label - the bind inside it refuses after the alignment
+padding (130 -> 136 bytes) has been appended. -/
+theorem const_pool_bind_overflow_witness :
+    (step witnessState (.embedConstPool 0 8 [1, 2, 3, 4, 5, 6, 7, 8])).code = Err.invalidDisplacement ∧
+    ((step witnessState (.embedConstPool 0 8 [1, 2, 3, 4, 5, 6, 7, 8])).st.secs.map (·.data.length)) = [136] ∧
+    bindOverflows witnessState (.embedConstPool 0 8 [1, 2, 3, 4, 5, 6, 7, 8]) = true := by
   decide +kernel
 
 /-- **One-shot state**: after every instruction call - accepted or rejected, whatever the encoder did - options, extra register and
@@ -96,7 +106,7 @@ theorem failure_is_reported (s : St) (op : Op) (hk : bindOverflows s op = false)
       all_goals simp [done, report, Err.ok, Err.invalidLabel, Err.invalidOperandSize]
     case embedLabelDelta id b sz =>
       revert hr hc; simp only [embedLabelDelta]; repeat' split
-      all_goals simp [done, report, Err.ok, Err.invalidLabel, Err.invalidOperandSize]
+      all_goals simp [done, report, Err.ok, Err.invalidLabel, Err.invalidOperandSize, Err.invalidDisplacement]
     case embedConstPool id a d =>
       revert hr hc; simp only [embedConstPool]; repeat' split
       all_goals simp_all [done, report, Err.ok, Err.invalidLabel, Err.labelAlreadyBound]
@@ -112,8 +122,7 @@ theorem failure_is_reported (s : St) (op : Op) (hk : bindOverflows s op = false)
     | newLabel => exact absurd rfl hc
     | newNamedLabel n t p => exact ((newNamedLabel_atomic s n t p).resolve_left hc).2
     | bind id =>
-      have h' : (bind s id).code ≠ Err.invalidDisplacement := by simpa [bindOverflows, step] using hk
-      exact ((bind_atomic s id h').resolve_left hc).2
+      exact ((bind_atomic s id).resolve_left hc).2
     | align m a => exact ((align_atomic s m a).resolve_left hc).2
     | embed bs => exact absurd rfl hc
     | embedArray t d c r => exact ((embedArray_atomic s t d c r).resolve_left hc).2
@@ -191,7 +200,7 @@ theorem failed_call_identity (s : St) (op : Op) (h1 : s.one = OneShot.empty) (hk
     (hfail : (step s op).code ≠ Err.ok) : (step s op).st = s :=
   frame_eq_of_one_empty h1 (step_one_empty s op h1) (failed_call_atomic_partial s op hfail hk)
 
-/-- **Like a fresh emitter** (partial: outside C14-K1).  For every history of calls - valid and invalid interleaved in any way -
+/-- **Like a fresh emitter** (partial: outside the const-pool residue of C14-K1).  For every history of calls - valid and invalid interleaved in any way -
 the emitter ends in exactly the state of an emitter that was handed the accepted calls only: failed calls leave no trace
 (bytes, labels, fixups, relocations, current section, one-shot state), so whatever is emitted afterwards is what a fresh emitter
 would produce. -/
@@ -424,7 +433,9 @@ example : accepted {} demoOps = [demoOps[0], demoOps[1], demoOps[7], demoOps[8]]
 example : run {} demoOps = run {} (accepted {} demoOps) := fresh_after_failure_partial demoOps {} rfl (by decide +kernel)
 example : handled {} demoOps = [26, 12, 12, 2, 12, 14] := by decide +kernel
 /-- the hypothesis of the partial theorems is not vacuous the other way either: the witness history is excluded -/
-example : noBindOverflow witnessState [.bind 0] = false := by decide +kernel
+example : noBindOverflow witnessState [.embedConstPool 0 8 [1, 2, 3, 4, 5, 6, 7, 8]] = false := by decide +kernel
+/-- a history with a refused unreachable bind is *inside* the theorems now -/
+example : noBindOverflow witnessState [.bind 0, .embed [0x90], .bind 0] = true := by decide +kernel
 /-- `embed_const_pool`: a bound label is refused before anything is appended; an unbound one aligns, binds and embeds -/
 example : (step { secs := [{ data := [1] }], labels := [{ bound := some (0, 0) }, {}] } (.embedConstPool 0 8 [7, 7])).code = Err.labelAlreadyBound ∧
     ((step { secs := [{ data := [1] }], labels := [{ bound := some (0, 0) }, {}] } (.embedConstPool 1 8 [7, 7])).st.secs.map (·.data.length)) = [10] ∧
